@@ -84,6 +84,12 @@ pub(crate) fn peek_id(cell: &RefCell<Option<Cc<Node>>>) -> Option<u8> {
     }
 }
 
+/// bit0 collecting, bit1 finalizing, bit2 dropping
+pub(crate) fn flags_now() -> u8 {
+    let sn = crate::state::state(|s| crate::state::verif_proofs::snap(s));
+    (sn.collecting as u8) | ((sn.finalizing as u8) << 1) | ((sn.dropping as u8) << 2)
+}
+
 fn do_action(this: &Node, act: Act, target: u8) {
     let id = this.id as usize;
     match act {
@@ -201,6 +207,14 @@ impl Finalize for Node {
         if !self.intact() {
             gs.canary_broken += 1;
         }
+        gs.fin_flags = flags_now();
+        if let Some(p) = crate::cc::verif_proofs::reg_opt(id) {
+            let (_, cw) = crate::cc::verif_proofs::words_of(p);
+            if cw & 0x4000 == 0 {
+                gs.fin_bit_unset_in_cb += 1;
+            }
+            gs.fin_seen_count[id] = cw & 0x3fff;
+        }
         // C05: everything reachable through my slots is still undropped
         for cell in [&self.s0, &self.s1, &self.hidden] {
             if let Some(n) = peek_id(cell) {
@@ -235,6 +249,15 @@ impl Drop for Node {
         }
         if !self.intact() {
             gs.canary_broken += 1;
+        }
+        gs.drop_flags = flags_now();
+        if let Some(p) = crate::cc::verif_proofs::reg_opt(id) {
+            let (tw, cw) = crate::cc::verif_proofs::words_of(p);
+            #[cfg(feature = "weak-ptrs")]
+            if tw & 0x3fff != 0x3fff {
+                gs.drop_not_marked_dropped += 1;
+            }
+            gs.drop_seen_count[id] = cw & 0x3fff;
         }
         if gs.fault_kind == 3 && gs.n_drop == gs.fault_k {
             ghost::start_panic();
